@@ -89,14 +89,14 @@ REG = {
     'allencahn_front_finel': dict(ctor=[{'nvars': 15}], tolkey='newton_tol', **NL, amp=0.02, t0only=True),
     'allencahn_front_fullyimplicit': dict(ctor=[{'nvars': 15}, {'nvars': 31, 'eps': 0.08}], tolkey='newton_tol', **NL, amp=0.02),
     'allencahn_front_semiimplicit': dict(ctor=[{'nvars': 15}, {'nvars': 31, 'eps': 0.08}], **LIN, amp=0.02),
-    'allencahn_fullyimplicit': dict(ctor=[{'nvars': (8, 8)}, {'nvars': (8, 8), 'order': 4}], tolkey='newton_tol', **NL, amp=0.02),
-    'allencahn_multiimplicit': dict(ctor=[{'nvars': (8, 8)}], tolkey='newton_tol', **NL, amp=0.02, comp2=True),
-    'allencahn_multiimplicit_v2': dict(ctor=[{'nvars': (8, 8)}], tolkey='newton_tol', **NL, amp=0.02, comp2=True),
+    'allencahn_fullyimplicit': dict(ctor=[{'nvars': (8, 8)}, {'nvars': (8, 8), 'order': 4}, {'nvars': (8, 8), 'nu': 4, 'eps': 0.2}, {'nvars': (8, 8), 'nu': 3, 'eps': 0.3, 'radius': 0.3}], tolkey='newton_tol', **NL, amp=0.02),
+    'allencahn_multiimplicit': dict(ctor=[{'nvars': (8, 8)}, {'nvars': (8, 8), 'nu': 4, 'eps': 0.2}, {'nvars': (8, 8), 'nu': 3, 'eps': 0.3, 'radius': 0.3}], tolkey='newton_tol', **NL, amp=0.02, comp2=True),
+    'allencahn_multiimplicit_v2': dict(ctor=[{'nvars': (8, 8)}, {'nvars': (8, 8), 'nu': 4, 'eps': 0.2}, {'nvars': (8, 8), 'nu': 3, 'eps': 0.3, 'radius': 0.3}], tolkey='newton_tol', **NL, amp=0.02, comp2=True),
     'allencahn_periodic_fullyimplicit': dict(ctor=[{'nvars': 16}, {'nvars': 32, 'eps': 0.1}], tolkey='newton_tol', **NL, amp=0.02),
     'allencahn_periodic_multiimplicit': dict(ctor=[{'nvars': 16}], tolkey='newton_tol', **NL, amp=0.02, comp2=True),
     'allencahn_periodic_semiimplicit': dict(ctor=[{'nvars': 16}, {'nvars': 32, 'eps': 0.1}], **LIN, amp=0.02),
-    'allencahn_semiimplicit': dict(ctor=[{'nvars': (8, 8)}], **LIN, amp=0.02, cgkey='lin_tol'),
-    'allencahn_semiimplicit_v2': dict(ctor=[{'nvars': (8, 8)}], tolkey='newton_tol', **NL, amp=0.02),
+    'allencahn_semiimplicit': dict(ctor=[{'nvars': (8, 8)}, {'nvars': (8, 8), 'nu': 4, 'eps': 0.2}], **LIN, amp=0.02, cgkey='lin_tol'),
+    'allencahn_semiimplicit_v2': dict(ctor=[{'nvars': (8, 8)}, {'nvars': (8, 8), 'nu': 4, 'eps': 0.2}, {'nvars': (8, 8), 'nu': 3, 'eps': 0.3, 'radius': 0.3}], tolkey='newton_tol', **NL, amp=0.02),
     'auzinger': dict(ctor=[{'newton_maxiter': 100, 'newton_tol': 1e-12}], tolkey='newton_tol', **NL, amp=0.05),
     'battery': dict(ctor=[{}, {'ncapacitors': 1, 'alpha': 5.0}], **LIN, amp=0.2),
     'battery_implicit': dict(ctor=[{}, {'ncapacitors': 1, 'alpha': 5.0}], tolkey='newton_tol', kind='newton', fmax=0, amp=0.2),
@@ -127,7 +127,7 @@ REG = {
 SIBLINGS = [
     ('allencahn_periodic_fullyimplicit', ['allencahn_periodic_semiimplicit', 'allencahn_periodic_multiimplicit'], [{'nvars': 16}, {'nvars': 32, 'eps': 0.1, 'dw': -0.1}]),
     ('allencahn_front_fullyimplicit', ['allencahn_front_semiimplicit'], [{'nvars': 15}, {'nvars': 31, 'eps': 0.08}]),
-    ('allencahn_fullyimplicit', ['allencahn_semiimplicit', 'allencahn_semiimplicit_v2', 'allencahn_multiimplicit', 'allencahn_multiimplicit_v2'], [{'nvars': (8, 8)}, {'nvars': (8, 8), 'eps': 0.1, 'nu': 1}]),
+    ('allencahn_fullyimplicit', ['allencahn_semiimplicit', 'allencahn_semiimplicit_v2', 'allencahn_multiimplicit', 'allencahn_multiimplicit_v2'], [{'nvars': (8, 8)}, {'nvars': (8, 8), 'eps': 0.1, 'nu': 1}, {'nvars': (8, 8), 'nu': 4, 'eps': 0.2}, {'nvars': (8, 8), 'nu': 3, 'eps': 0.3, 'radius': 0.3}]),
     ('advectiondiffusion1d_implicit', ['advectiondiffusion1d_imex'], [{'nvars': 16}, {'nvars': 32, 'c': 0.5, 'nu': 0.1}]),
     ('Quench', ['QuenchIMEX'], [{'nvars': 15}, {'nvars': 16, 'leak_type': 'exponential'}]),
     ('battery_implicit', ['battery'], [{}, {'alpha': 5.0}]),
